@@ -124,16 +124,18 @@ def _translate_type(onnx_type):
     return onnxscript.onnx_types.onnx_type_to_onnxscript_repr(onnx_type, reversible=False)
 
 
-def _translate_signature(inputs, outputs):
+def _translate_signature(inputs, outputs, rename=None):
     """Produce the script-functions signature."""
+    if rename is None:
+        rename = _cleanup_variable_name
 
     def input_sig(inp: ValueInfoProto | str):
         if isinstance(inp, ValueInfoProto):
             # GraphProto inputs/outputs are ValueInfoProto
-            return f"{_cleanup_variable_name(inp.name)}: {_translate_type(inp.type)}"
+            return f"{rename(inp.name)}: {_translate_type(inp.type)}"
 
         # FunctionProto inputs/outputs are just strings
-        return _cleanup_variable_name(inp)
+        return rename(inp)
 
     result = f"({', '.join([input_sig(x) for x in inputs])})"
     if outputs and isinstance(outputs[0], ValueInfoProto):
@@ -141,9 +143,12 @@ def _translate_signature(inputs, outputs):
     return f"{result}:"
 
 
-def _translate_value_infos(value_infos: Sequence[ValueInfoProto]) -> str:
+def _translate_value_infos(value_infos: Sequence[ValueInfoProto], rename=None) -> str:
+    if rename is None:
+        rename = _cleanup_variable_name
+
     def _translate_value_info(value_info: ValueInfoProto) -> str:
-        return f"{_SINGLE_INDENT}'{_cleanup_variable_name(value_info.name)}': {_translate_type(value_info.type)},"
+        return f"{_SINGLE_INDENT}'{rename(value_info.name)}': {_translate_type(value_info.type)},"
 
     lines = [_translate_value_info(x) for x in value_infos]
     lines_joined = "\n".join(lines)
@@ -727,18 +732,25 @@ class _Exporter:
         else:
             indent_level = 1
             indent = ""
+        # The body is translated first (within its own scope of name-remappings, like a function
+        # body) so that rename=True numbers the variables in their order of appearance in the body;
+        # the signature then uses the same renaming as the body.
+        self._name_remappings.append({})
+        body = self._translate_graph_body(graph, opsets, indent=indent_level)
+        return_values = ", ".join(self._translate_onnx_var(x) for x in graph.output)
+        self._name_remappings.pop()
+        signature = _translate_signature(graph.input, graph.output, self._translate_onnx_var)
         add(f"{indent}@script()")
-        add(f"{indent}def {function_name}{_translate_signature(graph.input, graph.output)}")
+        add(f"{indent}def {function_name}{signature}")
         indent = indent + _SINGLE_INDENT
         doc = graph.doc_string
         if doc:
             add(f'{indent}"""{doc}"""')
-        add(self._translate_graph_body(graph, opsets, indent=indent_level))
-        return_values = ", ".join(self._translate_onnx_var(x) for x in graph.output)
+        add(body)
         add(f"{indent}return {return_values}")
         script = "\n".join(result)
         if self.skipped_initializers:
-            value_infos = _translate_value_infos(graph.value_info)
+            value_infos = _translate_value_infos(graph.value_info, self._translate_onnx_var)
             return self._substitute_initializers(script, function_name, value_infos)
         return script
 
